@@ -141,6 +141,27 @@ class BaseMarker(BaseException):
     """an exception that is not an Exception (like KeyboardInterrupt): callbacks may raise those too"""
 
 
+def make_fault(kind):
+    """the exception object a callback raises at the injected fault: user-defined subclasses of the families a
+    careless `except` clause could swallow or a language rule could rewrite, and a few plain built-ins"""
+    bases = {"exception": Exception, "runtime": RuntimeError, "notimplemented": NotImplementedError,
+             "stopiteration": StopIteration, "lookup": KeyError, "arithmetic": OverflowError, "oserror": OSError,
+             "memory": MemoryError, "attribute": AttributeError, "assertion": AssertionError,
+             "stopasync": StopAsyncIteration, "generatorexit": GeneratorExit, "systemexit": SystemExit}
+    if kind == "base":
+        return BaseMarker("fault")
+    if kind in (None, "exception"):
+        return Marker("fault")
+    if kind.startswith("plain-"):
+        return bases[kind[6:]]("fault")
+    return type("Fault_" + kind, (bases[kind],), {})("fault")
+
+
+FAULT_KINDS = ["exception", "exception", "base", "base", "runtime", "notimplemented", "stopiteration", "lookup", "arithmetic",
+               "oserror", "memory", "attribute", "assertion", "stopasync", "generatorexit", "systemexit",
+               "plain-runtime", "plain-stopiteration", "plain-notimplemented", "plain-lookup"]
+
+
 def py_limit(lim):
     if lim is None:
         return None
@@ -166,12 +187,13 @@ def py_source(s):
     return PWithSelection(pools.py_pool(s["pw"]), pools.py_which(s["which"]))
 
 
-def run_mech_impl(mech, calls, fault=None, use_foreach=False, base_exception=False):
+def run_mech_impl(mech, calls, fault=None, use_foreach=False, base_exception=False, exc_kind=None):
     """returns list of results ({'ok': items} | {'exc': name}) and the number of callback invocations"""
     from dyce import H
     from dyce.evaluation import expandable, foreach, HResult, PResult
     counter = {"n": 0}
     fs = {}
+    decorated = {}
     states = mech["states"]
     raised = []
 
@@ -228,7 +250,7 @@ def run_mech_impl(mech, calls, fault=None, use_foreach=False, base_exception=Fal
             n = counter["n"]
             counter["n"] += 1
             if fault is not None and n == fault:
-                raised.append(BaseMarker("fault") if base_exception else Marker("fault"))
+                raised.append(make_fault(exc_kind or ("base" if base_exception else "exception")))
                 raise raised[-1]
             results = list(args) + [kw[names[j]] for j in range(st["npos"], len(st["srcs"]))]
             # "each callback parameter receives the result of the source passed in that position or
@@ -258,7 +280,11 @@ def run_mech_impl(mech, calls, fault=None, use_foreach=False, base_exception=Fal
         sent = H(gens.py_hist_dict(st["sentinel"]))
         if use_foreach:
             return foreach(cb, *args, limit=py_limit(lim), sentinel=sent, **kw)
-        return expandable(cb, sentinel=sent)(*args, limit=py_limit(lim), **kw)
+        # decorated ONCE per mechanic (as a user's @expandable function is) and reused by every nested and
+        # every later top-level call, so state kept by the decorator itself is exercised as well
+        if i not in decorated:
+            decorated[i] = expandable(cb, sentinel=sent)
+        return decorated[i](*args, limit=py_limit(lim), **kw)
 
     for i in range(len(states)):
         fs[i] = make(i)
@@ -267,14 +293,20 @@ def run_mech_impl(mech, calls, fault=None, use_foreach=False, base_exception=Fal
         try:
             r = invoke(st, lim)
             out.append({"ok": hist_items(r)})
-        except (Marker, BaseMarker) as e:
-            # the very object raised in the callback must reach the caller
-            same = bool(raised) and e is raised[-1] if str(e) == "fault" else True
-            out.append({"exc": "UserError", "which": str(e) if same else "fault-but-different-object"})
-        except WrongSource:
-            out.append({"exc": "WrongSource"})
-        except (ValueError, TypeError, IndexError, ZeroDivisionError, RecursionError) as e:
-            out.append({"exc": type(e).__name__})
+        except BaseException as e:  # noqa - whatever the callback raised must come back as it is
+            if raised and e is raised[-1]:
+                # the very object raised in the callback reached the caller
+                out.append({"exc": "UserError", "which": "fault"})
+            elif isinstance(e, Marker) and str(e) != "fault":
+                out.append({"exc": "UserError", "which": str(e)})
+            elif isinstance(e, WrongSource):
+                out.append({"exc": "WrongSource"})
+            elif raised and (e.__cause__ is raised[-1] or e.__context__ is raised[-1] or type(e) is type(raised[-1])):
+                out.append({"exc": "UserError", "which": "fault-but-different-object", "seen": type(e).__name__})
+            elif isinstance(e, (ValueError, TypeError, IndexError, ZeroDivisionError, RecursionError)):
+                out.append({"exc": type(e).__name__})
+            else:
+                raise
     return out, counter["n"]
 
 
@@ -484,7 +516,8 @@ def gen_source(rng, kinds=("h", "h", "p", "pw")):
     k = rng.choice(kinds)
     if k == "h":
         return {"h": gens.hist(rng, max_faces=3, style=rng.choice(["unit", "small", "pos"]), frac_p=0.05, min_faces=1)}
-    dice, _ = pools.gen_pool(rng, max_dice=2, max_faces=2, frac_p=0.0)
+    # no "big" counts here: under recursion totals are raised to the power branching**depth (MB-long integers)
+    dice, _ = pools.gen_pool(rng, max_dice=2, max_faces=2, frac_p=0.0, styles=("unit", "small", "small", "pos", "pos"))
     if k == "p":
         return {"p": dice}
     n = len(pools.effective_dice(dice))
